@@ -19,7 +19,10 @@ import (
 func CanonicalizeSource(source string) string {
 	source = strings.TrimPrefix(source, "\ufeff") // strip UTF-8 BOM; the lexer rejects it
 	source = strings.ReplaceAll(source, "\r\n", "\n")
-	source = strings.ReplaceAll(source, "\r", "\n")
+	// A lone CR is not a line ending to the lexer (it is blank space, or part
+	// of the comment or string it stands in): turning it into LF cut comments
+	// and strings in two and changed the program. Trailing CRs go with the
+	// other trailing blanks (rule 2).
 
 	lines := strings.Split(source, "\n")
 	var out []string
